@@ -79,6 +79,20 @@ SegKij ==
                /\ FClose(FMul(E.res.kij, k.den), k.num, RtolGC, FAdd(k.scale, FAbs(FMul(E.res.kij, k.den))), "1e-300")
                /\ FEq(E.res.kij, E.res.kji)))
         /\ cnt' = BumpAll(cnt, {"gc_kij"} \cup (IF ~bad /\ ~FEq(k.num, "0") THEN {"gc_kij_nonzero"} ELSE {}))
+SegKijN ==
+  /\ Ev("SegKijN")
+  /\ LET t == Tbl(E)
+         n == Len(E.mols)
+         bad == \E i \in 1..n : PolarCount(E.mols[i], t) > 1
+     IN /\ (bad => Report("C14.gc_polar_segments", <<E.mols, E.res, l>>, ~E.res.ok))
+        /\ (~bad => /\ Report("C14.gc_kij_averaging", <<E.mols, "construction succeeds", E.res, l>>, E.res.ok)
+                    /\ (E.res.ok => \A i \in 1..n : \A j \in 1..n :
+                           IF i = j THEN Report("C14.gc_kij_averaging", <<E.mols, i, j, "diagonal is zero", E.res.k[i][j], l>>, FEq(E.res.k[i][j], "0"))
+                           ELSE LET k == Kij(E.mols[i], E.mols[j], E.kab) IN
+                                Report("C14.gc_kij_averaging", <<E.mols, i, j, E.res.k[i][j], l>>,
+                                       /\ FClose(FMul(E.res.k[i][j], k.den), k.num, RtolGC, FAdd(k.scale, FAbs(FMul(E.res.k[i][j], k.den))), "1e-300")
+                                       /\ FEq(E.res.k[i][j], E.res.k[j][i]))))
+        /\ cnt' = BumpAll(cnt, {"gc_kij_multi"} \cup (IF ~bad THEN {"gc_kij_multi_ok"} ELSE {}))
 SegHetero ==
   /\ Ev("SegHetero")
   /\ LET t == Tbl(E)
@@ -107,7 +121,7 @@ Serde ==
   /\ cnt' = Bump(cnt, "serde_round_trips")
 
 Init == l = 1 /\ cnt = NoCount
-Next == /\ (Lookup \/ Binary \/ Multi \/ SegHomo \/ SegKij \/ SegHetero \/ Serde)
+Next == /\ (Lookup \/ Binary \/ Multi \/ SegHomo \/ SegKij \/ SegKijN \/ SegHetero \/ Serde)
         /\ (l' > NRec => PrintT("STATS " \o ToJson(cnt')))
 TraceSpec == Init /\ [][Next]_vars
 ================================================================================
